@@ -308,6 +308,16 @@ structure Env (Val : Type) where
   it, so this is a fact about the history, supplied here as a parameter. -/
   sibPre : Mutation → Bool := fun _ => false
   sibPost : Mutation → Bool := fun _ => false
+  /-- the property's setter (`_set_p` / `fset`): the dependency writes `obj.p = x`
+  performs, as a function of the current heap (`none` for the value: a setter
+  declared without a value parameter); `none`: read-only property
+  (`_read_only` raises TraitError, trait_type.py:87).  A setter that raises does so
+  before it writes. -/
+  fset : Option (Heap → Option Int → Except Exc (List Mutation)) := none
+  /-- `Property(SomeTrait, …)`: the validator applied to the value before the setter sees it -/
+  fvalidate : Option (Int → Except Exc Int) := none
+  /-- number of parameters of the setter (0-3): `()`, `(value)`, `(obj, value)`, `(obj, name, value)` -/
+  setN : Nat := 2
 
 variable {Val : Type}
 
@@ -426,15 +436,46 @@ def mutate (P : Env Val) (s : St Val) (m : Mutation) : St Val :=
 
 /-! ## Histories, construction and copies -/
 
+def runMuts (P : Env Val) (s : St Val) (ms : List Mutation) : St Val :=
+  ms.foldl (mutate P) s
+
+/-- `obj.p = x` / `del obj.p`. -/
+inductive SetArg where
+  | value (x : Int)
+  | delete
+  deriving Repr
+
+/-- Call the setter with the (validated) value: its dependency writes go through
+`mutate`, i.e. the property's own observer hears them like any other change. -/
+def callSetter (P : Env Val) (s : St Val) (x : Int) : Except Exc Unit × St Val :=
+  match P.fset with
+  | none => (.error .traitError, s)
+  | some f =>
+    match f s.heap (if P.setN = 0 then none else some x) with
+    | .error e => (.error e, s)
+    | .ok ms => (.ok (), runMuts P s ms)
+
+/-- Assignment to / deletion of the property itself.  ctraits.c
+`setattr_property0..3` (no validator) / `setattr_validate_property`:
+deleting raises TraitError (`set_delete_property_error`); the validator runs
+first and the setter receives the VALIDATED value; no notification is sent for
+the property by this path itself (the setter's dependency writes do that). -/
+def setProp (P : Env Val) (s : St Val) : SetArg → Except Exc Unit × St Val
+  | .delete => (.error .traitError, s)
+  | .value x =>
+    match P.fvalidate with
+    | none => callSetter P s x
+    | some fv =>
+      match fv x with
+      | .error e => (.error e, s)
+      | .ok y => callSetter P s y
+
 def blank (h : Heap) (r : Id) : Heap := fun i => if i = r then {} else h i
 
 /-- Assignment order of `__getstate__` / `copyable_trait_names` (definition order). -/
 def rootWrites (ob : Obj) : List Write :=
   [.scalar .value ob.value, .scalar .aux ob.aux, .scalar .xn ob.xn, .scalar .xi ob.xi,
    .scalar .xe ob.xe, .inst ob.inst, .kids ob.kids, .byname ob.byname, .tags ob.tags]
-
-def runMuts (P : Env Val) (s : St Val) (ms : List Mutation) : St Val :=
-  ms.foldl (mutate P) s
 
 /-- `__init__(**kw)`, `__setstate__`, `clone_traits`: a new object (empty
 `__dict__`, no dynamic listeners) gets its observers (`_init_trait_observers`),
@@ -452,6 +493,8 @@ inductive Step where
   /-- `obj.on_trait_change(h)` / `obj.on_trait_change(h, remove=True)` (no name: anytrait) -/
   | attachObj
   | detachObj
+  /-- `obj.p = x` / `del obj.p` through the property's own setter -/
+  | set (a : SetArg)
   /-- replace the root by `Root(**kw)` -/
   | construct (ws : List Write)
   /-- replace the object graph by `pickle.loads(pickle.dumps(·))`,
@@ -466,6 +509,7 @@ def step (P : Env Val) (s : St Val) : Step → St Val
   | .detach => { s with dyn := false }
   | .attachObj => { s with dynObj := true }
   | .detachObj => { s with dynObj := false }
+  | .set a => (setProp P s a).2
   | .construct ws => restore P (blank s.heap P.root) ws
   | .copy => restore P (blank s.heap P.root) (rootWrites (s.heap P.root))
 
@@ -518,23 +562,23 @@ def falsyGetter (E : Expr) (root : Id) (h : Heap) : String :=
 
 /-! ## The source text this model was transcribed from
 
-Normalised (`ast.unparse`) text of the functions mirrored above, as they stand in
-the pinned tree.  `Props/C12.lean` proves these equal to what the translator
+Normalised (`ast.unparse`, parameters / locals / nested function names numbered by
+first occurrence) text of the functions mirrored above, as they stand in the pinned tree.  `Props/C12.lean` proves these equal to what the translator
 `harness/translate/propstate.py` reads from the working tree on every run: an
 edit of any of these functions breaks that proof obligation. -/
 namespace Source
 
 def postInit : Bool := false
 def dispatch : String := "same"
-def handlerSrc : String := "def handler(instance, event):\n    if cached:\n        cache_name = TraitsCache + property_name\n        old = instance.__dict__.pop(cache_name, Undefined)\n    else:\n        old = Undefined\n    instance.trait_property_changed(property_name, old)"
-def observeStateSrc : String := "def _create_property_observe_state(observe, property_name, cached):\n\n    def handler(instance, event):\n        if cached:\n            cache_name = TraitsCache + property_name\n            old = instance.__dict__.pop(cache_name, Undefined)\n        else:\n            old = Undefined\n        instance.trait_property_changed(property_name, old)\n\n    def handler_getter(instance, name):\n        return types.MethodType(handler, instance)\n    graphs = _compile_expression(observe)\n    return dict(graphs=graphs, dispatch='same', handler_getter=handler_getter, post_init=False)"
+def handlerSrc : String := "def handler(_l0, _l1):\n    if cached:\n        _l2 = TraitsCache + property_name\n        _l3 = _l0.__dict__.pop(_l2, Undefined)\n    else:\n        _l3 = Undefined\n    _l0.trait_property_changed(property_name, _l3)"
+def observeStateSrc : String := "def _create_property_observe_state(_l0, _l1, _l2):\n\n    def _l3(_l4, _l5):\n        if _l2:\n            _l6 = TraitsCache + _l1\n            _l7 = _l4.__dict__.pop(_l6, Undefined)\n        else:\n            _l7 = Undefined\n        _l4.trait_property_changed(_l1, _l7)\n\n    def _l8(_l4, _l9):\n        return types.MethodType(_l3, _l4)\n    _l10 = _compile_expression(_l0)\n    return dict(graphs=_l10, dispatch='same', handler_getter=_l8, post_init=False)"
 def wiringSrc : List String := ["if trait.type == 'property' and trait.depends_on is not None:\n    cached = trait.cached\n    if cached is True:\n        cached = TraitsCache + name\n    depends_on = trait.depends_on\n    if isinstance(depends_on, SequenceTypes):\n        depends_on = ','.join(depends_on)\n    else:\n        depends_on = ' ' + depends_on\n    listeners[name] = ('property', cached, depends_on)", "if trait.type == 'property' and trait.observe is not None:\n    observer_state = _create_property_observe_state(observe=trait.observe, property_name=name, cached=trait.cached)\n    observers[name] = [observer_state]"]
 def propertyMetadataSrc : List String := ["metadata.setdefault('depends_on', getattr(fget, 'depends_on', None))", "if getattr(fget, 'cached_property', False):\n    metadata.setdefault('cached', True)"]
 def cacheNameSrc : String := "name = TraitsCache + function.__name__[5:]"
-def cachedPropertySrc : String := "def decorator(self):\n    result = self.__dict__.get(name, Undefined)\n    if result is Undefined:\n        self.__dict__[name] = result = function(self)\n    return result"
-def legacyListenerSrc : String := "def _init_trait_property_listener(self, name, kind, cached, pattern):\n    if cached is None:\n\n        @weak_arg(self)\n        def notify(self):\n            self.trait_property_changed(name, None)\n    else:\n        cached_old = cached + ':old'\n\n        @weak_arg(self)\n        def pre_notify(self):\n            dict = self.__dict__\n            old = dict.get(cached_old, Undefined)\n            if old is Undefined:\n                dict[cached_old] = dict.pop(cached, None)\n        self.on_trait_change(pre_notify, pattern, priority=True, target=self)\n\n        @weak_arg(self)\n        def notify(self):\n            old = self.__dict__.pop(cached_old, Undefined)\n            if old is not Undefined:\n                self.trait_property_changed(name, old)\n    self.on_trait_change(notify, pattern, target=self)"
-def initObserversSrc : String := "def _init_trait_observers(self):\n    for name, states in self.__class__.__observer_traits__.items():\n        for state in states:\n            if not state['post_init']:\n                observe_api.apply_observers(object=self, handler=state['handler_getter'](self, name), graphs=state['graphs'], dispatcher=_ObserverDispatchers[state['dispatch']])"
-def postInitObserversSrc : String := "def _post_init_trait_observers(self):\n    for name, states in self.__class__.__observer_traits__.items():\n        for state in states:\n            if state['post_init']:\n                observe_api.apply_observers(object=self, handler=state['handler_getter'](self, name), graphs=state['graphs'], dispatcher=_ObserverDispatchers[state['dispatch']])"
+def cachedPropertySrc : String := "def decorator(_l0):\n    _l1 = _l0.__dict__.get(name, Undefined)\n    if _l1 is Undefined:\n        _l0.__dict__[name] = _l1 = function(_l0)\n    return _l1"
+def legacyListenerSrc : String := "def _init_trait_property_listener(_l0, _l1, _l2, _l3, _l4):\n    if _l3 is None:\n\n        @weak_arg(_l0)\n        def _l5(_l0):\n            _l0.trait_property_changed(_l1, None)\n    else:\n        _l6 = _l3 + ':old'\n\n        @weak_arg(_l0)\n        def _l7(_l0):\n            _l8 = _l0.__dict__\n            _l9 = _l8.get(_l6, Undefined)\n            if _l9 is Undefined:\n                _l8[_l6] = _l8.pop(_l3, None)\n        _l0.on_trait_change(_l7, _l4, priority=True, target=_l0)\n\n        @weak_arg(_l0)\n        def _l5(_l0):\n            _l9 = _l0.__dict__.pop(_l6, Undefined)\n            if _l9 is not Undefined:\n                _l0.trait_property_changed(_l1, _l9)\n    _l0.on_trait_change(_l5, _l4, target=_l0)"
+def initObserversSrc : String := "def _init_trait_observers(_l0):\n    for _l1, _l2 in _l0.__class__.__observer_traits__.items():\n        for _l3 in _l2:\n            if not _l3['post_init']:\n                observe_api.apply_observers(object=_l0, handler=_l3['handler_getter'](_l0, _l1), graphs=_l3['graphs'], dispatcher=_ObserverDispatchers[_l3['dispatch']])"
+def postInitObserversSrc : String := "def _post_init_trait_observers(_l0):\n    for _l1, _l2 in _l0.__class__.__observer_traits__.items():\n        for _l3 in _l2:\n            if _l3['post_init']:\n                observe_api.apply_observers(object=_l0, handler=_l3['handler_getter'](_l0, _l1), graphs=_l3['graphs'], dispatcher=_ObserverDispatchers[_l3['dispatch']])"
 def setstateCalls : List String := ["_init_trait_listeners", "_init_trait_observers", "trait_set", "_post_init_trait_listeners", "_post_init_trait_observers", "traits_init"]
 def cloneCalls : List String := ["_init_trait_listeners", "_init_trait_observers", "copy_traits", "_post_init_trait_listeners", "_post_init_trait_observers", "traits_init", "_trait_set_inited"]
 def cInitOrder : List String := ["_init_trait_listeners", "_init_trait_observers", "has_traits_setattro", "_post_init_trait_listeners", "_post_init_trait_observers", "traits_init"]
